@@ -3,7 +3,7 @@ import numpy as np
 from hypothesis import strategies as st
 
 from twv.runner import Sub, Violation
-from twv.gens import series, is_uniform
+from twv.gens import series, ys, is_uniform
 
 import traffic_weaver.process as process
 from traffic_weaver import Weaver
@@ -11,14 +11,21 @@ from traffic_weaver import Weaver
 PROPERTY = "C12"
 LEVEL = "exploration"
 RULE = ("Hypothesis builds a series of 2..60 samples (uniform: integer / hour / float-step grids; non-uniform: dyadic, "
-        "motif, log-uniform gaps, large offset; abscissae as float64, int64 or Python list, values as float or int) "
+        "motif, log-uniform gaps, large offset; abscissae as float64, int64 or Python list, values as float or int; "
+        "about a third of the series in a narrow dtype - int8/int16/int32/uint8/uint16 abscissae ending just below "
+        "the dtype's maximum or spanning its whole range, float32/float16 abscissae on the ulp lattice just below a "
+        "power of two or below the dtype's maximum, values int8..uint16/float32/float16 at the dtype's limits - so "
+        "that the input is exactly representable but its r-fold extension is not) "
         "and r in 1..12 (structure, weaver), r = 1 (identity) or a factor pair (a, b) with a*b <= 24 (composition); "
         "the Weaver is used fresh and with a working series different from the reference. Non-trivial = "
-        "non-uniform spacing and r >= 2 (composition: a >= 2 and b >= 2; identity: non-uniform spacing or integer "
-        "input, where the float conversion matters); distinct = distinct full input.")
+        "non-uniform spacing and r >= 2 (composition: a >= 2 and b >= 2; identity: non-uniform spacing or integer / "
+        "narrow-dtype input, where the float conversion matters), or a narrow-dtype series whose extension leaves "
+        "the range or precision of its dtype; distinct = distinct full input.")
 ASSUMPTIONS = [
-    "x strictly increasing with >= 2 samples, gaps >= 1e-3 and |x| <= 1.1e6 (twv.gens), so one ulp of the largest "
-    "repeated abscissa is far below the smallest gap",
+    "x strictly increasing with >= 2 samples, gaps >= 1e-3 and |x| <= 1.1e6 (twv.gens), narrow-dtype series: gaps >= "
+    "2**-24 * max|x| and |x| < 2**32, so one float64 ulp of the largest repeated abscissa is far below the smallest "
+    "gap; narrow-dtype inputs hold exactly the generated values (checked before the call); the oracle is the closed "
+    "form in float64 of those exact values, whatever the input dtype",
     "values and the first copy are compared bit for bit as float64 ('equals the input' as values: an integer result for integer "
     "input would be accepted); gaps inside copies and across junctions and the composition's abscissae are compared with "
     "tolerance 1e-12 * max|x_out| (worst deviations measured on the pinned tree over 4 000 generated cases: gaps "
@@ -39,6 +46,9 @@ XKINDS = ["unit", "unit", "fstep", "hours", "dyadic", "dyadic", "loguni", "logun
 REPEATS = st.one_of(st.integers(2, 12), st.integers(2, 12), st.integers(1, 12))
 PAIRS = [(a, b) for a in range(1, 25) for b in range(1, 24 // a + 1)]
 PAIRS += [p for p in PAIRS if min(p) >= 2] * 2
+INT_DTYPES = ["int8", "int16", "int32", "uint8", "uint16"]
+FLOAT_BITS = {"float32": 24, "float16": 11}       # significand bits
+NARROW = INT_DTYPES + ["float32", "float32", "float16"]
 
 
 # ---- oracle -----------------------------------------------------------------------------------------------------
@@ -125,22 +135,125 @@ def check_same(name, x, y, res):
 # ---- generators ---------------------------------------------------------------------------------------------------
 
 @st.composite
+def narrow_x(draw, dtype):
+    """Strictly increasing abscissae exactly representable in `dtype`, placed so that the extension by one more
+    period leaves the dtype's range (integers, float16 'max') or its precision (floats: ulp lattice below 2**e)."""
+    if dtype in INT_DTYPES:
+        info = np.iinfo(dtype)
+        lo, hi = int(info.min), int(info.max)
+        nmax = 12 if hi < 1000 else 30
+        mode = draw(st.sampled_from(["top", "top", "wide", "coordinator"]))
+        if mode == "coordinator" and dtype == "int16":
+            return "int16-example", [20000, 25000, 30000]
+        if mode == "wide":
+            # first sample near the minimum, last near the maximum: already the span (signed) or span + step overflows
+            inner = draw(st.lists(st.integers(lo + 4, hi - 4), unique=True, min_size=0, max_size=nmax - 2))
+            return "wide", [lo + draw(st.integers(0, 3))] + sorted(inner) + [hi - draw(st.integers(0, 3))]
+        n = draw(st.integers(2, nmax))
+        unit = draw(st.sampled_from([1, 1, 10, 1000, (hi - lo) // (8 * n)]))
+        unit = max(1, min(unit, (hi - lo) // (8 * n)))
+        gaps = [unit * g for g in draw(st.lists(st.integers(1, 4), min_size=n - 1, max_size=n - 1))]
+        period = sum(gaps) + gaps[-1]
+        last = hi - draw(st.integers(0, period - 1))            # last + period > hi
+        x = [last]
+        for g in reversed(gaps):
+            x.append(x[-1] - g)
+        return "top", x[::-1]
+    p = FLOAT_BITS[dtype]
+    emax = 24 if dtype == "float32" else 16                      # float16: 2**16 itself overflows (max 65504)
+    e = draw(st.one_of(st.just(p), st.just(emax), st.integers(-2 if dtype == "float32" else 2, emax)))
+    top, u = 2.0 ** e, 2.0 ** (e - p)                            # u = ulp just below 2**e
+    n = draw(st.integers(2, 30))
+    gaps = draw(st.lists(st.integers(1, 4), min_size=n - 1, max_size=n - 1))
+    m = [draw(st.integers(1, 2))]
+    for g in reversed(gaps):
+        m.append(m[-1] + g)
+    kind = "below-max" if (dtype == "float16" and e == 16) else "unit-steps-below-2^p" if e == p else "below-pow2"
+    return kind, [top - k * u for k in m[::-1]]
+
+
+@st.composite
+def narrow_y(draw, dtype, n):
+    if dtype in INT_DTYPES:
+        info = np.iinfo(dtype)
+        lo, hi = int(info.min), int(info.max)
+        return draw(st.lists(st.one_of(st.sampled_from([lo, hi, 0]), st.integers(lo, hi)), min_size=n, max_size=n))
+    big = 65504.0 if dtype == "float16" else float(np.finfo(np.float32).max)
+    return draw(st.lists(st.one_of(st.sampled_from([big, -big, 0.0]), st.integers(-1000, 1000).map(lambda k: k / 8)),
+                         min_size=n, max_size=n))
+
+
+@st.composite
+def narrow_series(draw):
+    xdt = draw(st.sampled_from(NARROW))
+    kind, x = draw(narrow_x(xdt))
+    ydt = draw(st.sampled_from([None] + NARROW + NARROW))
+    if ydt is None:
+        y, ykind = draw(ys(len(x)))["y"], "float64"
+    else:
+        y, ykind = draw(narrow_y(ydt, len(x))), ydt
+    return dict(x=x, y=y, xkind=f"{xdt}:{kind}", ykind=ykind, xint=xdt in INT_DTYPES, as_list=False, xdtype=xdt,
+                ydtype=ydt)
+
+
+@st.composite
 def base_series(draw, ctx):
+    if draw(st.integers(0, 2)) == 0:
+        return draw(narrow_series())
     s = draw(series(2, ctx.pick(40, 60), xkinds=XKINDS))
     if s["ykind"] in ("int", "ties") and all(float(v).is_integer() for v in s["y"]) and draw(st.booleans()):
         s = dict(s, y=[int(v) for v in s["y"]], yint=True)
     return s
 
 
+def narrow_array(values, dtype):
+    """ndarray of `dtype` (None: NumPy's default) holding exactly `values`; a generator slip is a harness error."""
+    if dtype is None:
+        return np.array(values)
+    a = np.array(values, dtype=np.float64 if dtype in FLOAT_BITS else object).astype(dtype)
+    if [float(v) for v in a.tolist()] != [float(v) for v in values]:
+        raise RuntimeError(f"generated values are not representable in {dtype}: {values}")
+    return a
+
+
 def inputs(case, kx="x", ky="y"):
     x, y = case[kx], case[ky]
     if case.get("as_list"):
         return list(x), list(y)
-    return np.array(x), np.array(y)
+    return narrow_array(x, case.get(kx + "dtype")), narrow_array(y, case.get(ky + "dtype"))
 
 
-def series_classes(case, x):
+def leaves_dtype(x, dtype, r):
+    """does the exact r-fold extension of x (or the shift of its last copy) leave the range / precision of dtype?"""
+    if dtype is None or r < 2:
+        return set()
+    period = (x[-1] - x[0]) + (x[-1] - x[-2])
+    top = x[-1] + (r - 1) * period
+    out = set()
+    if dtype in INT_DTYPES:
+        info = np.iinfo(dtype)
+        if top > info.max:
+            out.add("extension-leaves-dtype")
+        if (r - 1) * period > info.max:
+            out.add("shift-leaves-dtype")
+        return out
+    want = np.array([v + k * period for k in range(r) for v in x], dtype=np.float64)
+    with np.errstate(all="ignore"):
+        back = want.astype(dtype).astype(np.float64)
+    if not np.array_equal(back, want):
+        out.add("extension-leaves-dtype")
+    return out
+
+
+def series_classes(case, x, r=1, kx="x", ky="y"):
     cls = {"x:" + case.get("xkind", "?"), "uniform" if is_uniform([float(v) for v in x]) else "non-uniform"}
+    if case.get(kx + "dtype"):
+        cls.add("xdtype:" + case[kx + "dtype"])
+        cls.add("narrow-x")
+        cls |= leaves_dtype(x, case[kx + "dtype"], r)
+    if case.get(ky + "dtype"):
+        cls.add("ydtype:" + case[ky + "dtype"])
+        cls.add("narrow-y")
     if case.get("xint"):
         cls.add("int-x")
     if case.get("yint"):
@@ -168,8 +281,8 @@ def structure_body(ctx, case):
     xa, ya = inputs(case)
     res = process.repeat(xa, ya, repeats=r) if case["kw"] else process.repeat(xa, ya, r)
     check_extension(f"repeat(x, y, {r})", x, y, r, res)
-    cls = series_classes(case, x) | {r_class(r)}
-    ctx.record(case, cls, "non-uniform" in cls and r >= 2)
+    cls = series_classes(case, x, r) | {r_class(r)}
+    ctx.record(case, cls, ("non-uniform" in cls and r >= 2) or "extension-leaves-dtype" in cls)
 
 
 # ---- identity ------------------------------------------------------------------------------------------------------
@@ -192,7 +305,7 @@ def identity_body(ctx, case):
     else:
         check_same("repeat(x, y, 1)", x, y, process.repeat(xa, ya, 1))
         cls.add("direct")
-    ctx.record(case, cls, "non-uniform" in cls or "int-x" in cls or "int-y" in cls)
+    ctx.record(case, cls, bool(cls & {"non-uniform", "int-x", "int-y", "narrow-x", "narrow-y"}))
 
 
 # ---- composition -----------------------------------------------------------------------------------------------------
@@ -207,7 +320,7 @@ def composition_body(ctx, case):
     x, y, a, b = case["x"], case["y"], case["a"], case["b"]
     n = len(x)
     xa, ya = inputs(case)
-    cls = series_classes(case, x) | {r_class(a * b), "a=1" if a == 1 else "b=1" if b == 1 else "a,b>=2"}
+    cls = series_classes(case, x, a * b) | {r_class(a * b), "a=1" if a == 1 else "b=1" if b == 1 else "a,b>=2"}
     if case["facade"]:
         w2, w3 = Weaver(xa, ya), Weaver(*inputs(case))
         w2.repeat(a)
@@ -238,7 +351,7 @@ def composition_body(ctx, case):
         if np.any(dev > RTOL * scale):
             k = int(np.argmax(dev))
             raise Violation(f"{name}: x[{k}] = {X2[k]!r} but repeating {a * b} times gives {X3[k]!r}")
-    ctx.record(case, cls, "non-uniform" in cls and a >= 2 and b >= 2)
+    ctx.record(case, cls, ("non-uniform" in cls or "extension-leaves-dtype" in cls) and a >= 2 and b >= 2)
 
 
 # ---- Weaver.repeat: working series and reference -------------------------------------------------------------------------
@@ -249,18 +362,21 @@ def weaver_case(draw, ctx):
     case = dict(s, r=draw(REPEATS), xw=None, yw=None)
     if draw(st.integers(0, 2)) != 0:
         o = draw(base_series(ctx))
-        case.update(xw=o["x"], yw=o["y"], wkind=o["xkind"])
+        case.update(xw=o["x"], yw=o["y"], wkind=o["xkind"], xwdtype=o.get("xdtype"), ywdtype=o.get("ydtype"))
     return case
 
 
 def weaver_body(ctx, case):
     x, y, r = case["x"], case["y"], case["r"]
     w = Weaver(*inputs(case))
-    cls = series_classes(case, x) | {r_class(r)}
+    cls = series_classes(case, x, r) | {r_class(r)}
     xw, yw = x, y
     if case["xw"] is not None:
         xw, yw = case["xw"], case["yw"]
-        w.x, w.y = np.array(xw), np.array(yw)
+        w.x, w.y = narrow_array(xw, case.get("xwdtype")), narrow_array(yw, case.get("ywdtype"))
+        if case.get("xwdtype"):
+            cls.add("working-xdtype:" + case["xwdtype"])
+            cls |= {"working-" + c for c in leaves_dtype(xw, case["xwdtype"], r)}
         cls.add("working-differs-from-reference")
         cls.add("working:" + ("uniform" if is_uniform([float(v) for v in xw]) else "non-uniform"))
         if len(xw) != len(x):
@@ -270,7 +386,8 @@ def weaver_body(ctx, case):
     w.repeat(r)
     check_extension(f"Weaver.repeat({r}).get()", xw, yw, r, w.get())
     check_extension(f"Weaver.repeat({r}).get_reference()", x, y, r, w.get_reference())
-    ctx.record(case, cls, ("non-uniform" in cls or "working:non-uniform" in cls) and r >= 2)
+    ctx.record(case, cls, (("non-uniform" in cls or "working:non-uniform" in cls) and r >= 2)
+               or "extension-leaves-dtype" in cls or "working-extension-leaves-dtype" in cls)
 
 
 SUBCHECKS = [
